@@ -102,7 +102,14 @@ fn match_path_segments(segments: &[&str], old_segments: &[PathSegment]) -> Optio
     }
 
     // if iter is empty, perfect match !
-    segments_iter.next().is_none().then_some(optionals)
+    // what is left of the route can also match nothing: absent optional params, an empty splat, an index route ("")
+    segments_iter
+        .all(|(_, seg)| match seg {
+            PathSegment::Unit | PathSegment::OptionalParam(_) | PathSegment::Splat(_) => true,
+            PathSegment::Static(s) => s.is_empty(),
+            PathSegment::Param(_) => false,
+        })
+        .then_some(optionals)
 }
 
 fn get_locale_from_path<L: Locale>(path: &str, base_path: &str) -> Option<L> {
